@@ -572,6 +572,17 @@ func (w *world) roundTrip(t *rt.Tape, res *core.Result, smp *sample) *core.Failu
 		return &core.Failure{Clause: "roundtrip-parse-error", Detail: fmt.Sprintf("a circuit written with Marshal%s (%d bytes, reader: %s) does not parse back: %v", map[int]string{0: "", 1: "Bristol"}[format], len(data), smp.Reader, pr.err)}
 	}
 	got := pr.circ
+	// the caller keeps the parsed circuit while the process goes on parsing and writing other
+	// files: what was returned must not change under its feet (one case in two)
+	if t.Choose(rt.SGen, 2) == 0 {
+		oc := gen.Circuit(t, gen.CircuitOpts{MaxGates: 60})
+		for _, f := range []int{format, 1 - format} {
+			if od, err := marshal(oc, f); err == nil {
+				safeParse(f, od, rmode, k)
+			}
+		}
+		res.Reach["roundtrip.result-kept-across-other-parses"]++
+	}
 	if got.NumGates != c.NumGates || got.NumWires != c.NumWires || !gatesEqual(got.Gates, c.Gates) {
 		return &core.Failure{Clause: "roundtrip-differs", Detail: fmt.Sprintf("gates or counts differ after the round trip: %d/%d gates, %d/%d wires", got.NumGates, c.NumGates, got.NumWires, c.NumWires)}
 	}
